@@ -311,6 +311,17 @@ def check_star_finder(case, ctx):
     rows_open = _rows(t_open)
     cols = [c for c in (t_open.colnames if t_open is not None else []) if c != 'id']
     # ---- selection differential: bounds (inclusive), peakmax, brightest
+    sel, rejected, tie = _select(rows_open, cols, cfg, kind)
+    if tie:
+        ctx.event('flux_tie_skipped')
+        return
+    if cfg['brightest'] is not None and len(sel) == cfg['brightest'] and rejected:
+        ctx.event('brightest_truncates')
+    _after_select(case, ctx, cfg, kind, f, img, mask, t, nwarn, rows_open, cols,
+                  sel, rejected)
+
+
+def _select(rows_open, cols, cfg, kind):
     sel = []
     rejected = 0
     for r in rows_open:
@@ -333,13 +344,17 @@ def check_star_finder(case, ctx):
         order = sorted(range(len(sel)), key=lambda i: -sel[i][fi])
         fl = sorted((r[fi] for r in sel), reverse=True)
         if len(set(fl[:cfg['brightest'] + 1])) == len(fl[:cfg['brightest'] + 1]):
+            rejected += len(sel) - cfg['brightest']
             sel = [sel[i] for i in order[:cfg['brightest']]]
-            ctx.event('brightest_truncates')
-            if any(r[fi] < 0 for r in sel) or fl[-1] < 0:
-                ctx.event('negative_fluxes_present')
         else:
-            ctx.event('flux_tie_skipped')
-            return
+            return sel, rejected, True
+    return sel, rejected, False
+
+
+def _after_select(case, ctx, cfg, kind, f, img, mask, t, nwarn, rows_open, cols,
+                  sel, rejected):
+    from scipy.ndimage import convolve
+    keyf = (lambda r: tuple(v if v == v else 1e308 for v in r))
     got = _rows(t)
     ctx.mark(rejected >= 1 and len(sel) >= 1)
     if not sel:
@@ -353,7 +368,6 @@ def check_star_finder(case, ctx):
         raise Violation('none_iff_nothing_qualifies',
                         f'{kind}: {len(sel)} sources qualify but None was returned')
     require(list(t['id']) == list(range(1, len(t) + 1)), 'ids')
-    keyf = (lambda r: (r[0], r[1]))
     same = _same_rows(sorted(got, key=keyf), sorted(sel, key=keyf))
     if not same:
         raise Violation('selection',
@@ -420,6 +434,35 @@ def check_star_finder(case, ctx):
                             f'{0 if t_xy is None else len(t_xy)} rows, normal run '
                             f'{len(got)}', kind=kind)
         ctx.event('xycoords_checked')
+    # ---- arbitrary xycoords replace peak finding (the same filters apply)
+    pts = case.get('xycoords')
+    if pts and kind in ('dao', 'iraf'):
+        ny_, nx_ = img.shape
+        P = np.array([[p[0] * (nx_ - 1), p[1] * (ny_ - 1)] for p in pts])
+        for (x, y, *_r) in case['scene']['stars'][:2]:
+            if 3 <= x <= nx_ - 4 and 3 <= y <= ny_ - 4:
+                P = np.vstack([P, [round(x), round(y)]])
+        with warnings.catch_warnings():
+            warnings.simplefilter('ignore')
+            ta = make_finder(cfg, xycoords=P)(img.copy(), mask=mask)
+            tb = make_finder(cfg, xycoords=P, **OPEN)(img.copy(), mask=mask)
+        ro = _rows(tb)
+        sel2, _, tie2 = _select(ro, cols, cfg, kind)
+        if not tie2:
+            if not _same_rows(sorted(_rows(ta), key=keyf), sorted(sel2, key=keyf)):
+                raise Violation('xycoords_selection',
+                                f'{kind}: with xycoords the returned rows are '
+                                f'not the configured selection of the unfiltered '
+                                f'xycoords run ({len(_rows(ta))} vs {len(sel2)})',
+                                kind=kind)
+        require(len(ro) <= len(P), 'xycoords_more_rows_than_positions')
+        for r in ro:
+            if not any(abs(r[0] - p[0]) <= K.xradius + 0.5 and abs(r[1] - p[1]) <= K.yradius + 0.5
+                       for p in P):
+                raise Violation('xycoords_row_elsewhere',
+                                f'{kind}: source at ({r[0]:.2f},{r[1]:.2f}) is not '
+                                f'near any supplied xycoords position', kind=kind)
+        ctx.event('arbitrary_xycoords_checked')
 
 
 @st.composite
@@ -456,7 +499,10 @@ def star_cases(draw):
                       'hot': [[draw(st.integers(0, 50)), draw(st.integers(0, 50)),
                                draw(st.sampled_from([80.0, 300.0]))]
                               for _ in range(draw(st.integers(0, 2)))]},
-            'config': cfg, 'mask': draw(st.sampled_from([0, 0, 4]))}
+            'config': cfg, 'mask': draw(st.sampled_from([0, 0, 4])),
+            'xycoords': draw(st.one_of(st.none(), st.lists(
+                st.tuples(st.floats(0.1, 0.9), st.floats(0.1, 0.9)).map(list),
+                min_size=1, max_size=4)))}
 
 
 SUBCHECKS = [
